@@ -110,9 +110,27 @@ pub fn without(src: &str, cs: &[CommentInfo], remove: &[bool]) -> String {
         if !remove[k] {
             continue;
         }
+        // a comment alone on its line goes together with the line
+        let line_start = src[..c.start].rfind('\n').map(|p| p + 1).unwrap_or(0);
+        let own_line = line_start >= pos && src[line_start..c.start].trim().is_empty();
+        let rest_end = src[c.end..].find('\n').map(|p| c.end + p + 1);
+        let nothing_after = match rest_end {
+            Some(e) => src[c.end..e].trim().is_empty(),
+            None => src[c.end..].trim().is_empty(),
+        };
+        if own_line && nothing_after && rest_end.is_some() {
+            out.push_str(&src[pos..line_start]);
+            pos = rest_end.unwrap();
+            continue;
+        }
         out.push_str(&src[pos..c.start]);
         if !c.line {
             out.push(' ');
+        } else {
+            // drop the spaces that separated the code from its trailing comment
+            while out.ends_with(' ') || out.ends_with('\t') {
+                out.pop();
+            }
         }
         pos = c.end;
     }
